@@ -1,0 +1,4 @@
+//go:build verif
+
+// Contracts for package aac, checked by /verif/govc (comment-only file, compiled only with -tags verif).
+package aac
